@@ -430,7 +430,10 @@ class Repository(base.AbstractGitHostObject, base.AbstractRepository):
             raise
 
         for key, status in combined.status.items():
-            cache.BUILD_STATUS_CACHE[key].set(combined.commit, status)
+            # Never downgrade a build that was already seen successful
+            cached = cache.BUILD_STATUS_CACHE[key].get(combined.commit, None)
+            if not cached or cached.state != 'SUCCESSFUL':
+                cache.BUILD_STATUS_CACHE[key].set(combined.commit, status)
 
         return combined
 
